@@ -82,6 +82,7 @@ func runC04(c *Ctx) {
 	c.Rule("C04.R8", "WIRE", "$client membership scans are complete", 1)
 
 	checkClientValues(c, "C04.R12")
+	checkByteCopyLoops(c, "C04.R13")
 	importRules(c, runC03, map[string]string{"C03.R9": "C04.R11"}, map[string]string{"C04.R11": "the constants a mask is compiled with mean what the syntax documents, so the pattern conjunct holds for every URL the mask describes (shared with C03.R9)"})
 	importRules(c, runC17, map[string]string{"C17.R1": "C04.R9", "C17.R2": "C04.R9", "C17.R6": "C04.R9"},
 		map[string]string{"C04.R9": "the request fields $third-party and $domain read are derived as documented: third-party flag, registrable domains, eTLD+1 table (shared with C17.R1/R2/R6)"})
